@@ -3,6 +3,7 @@ package main
 import (
 	"go/token"
 	"go/types"
+	"sort"
 	"strings"
 
 	"golang.org/x/tools/go/ssa"
@@ -298,6 +299,7 @@ func runC11(p *P, r *R) {
 
 	// a close from any starting state closes the notify channel (shared with C10 R10.3)
 	borrow(p, r, "C10", runC10, map[string]string{"R10.3": "R11.3"}, func(o Ob) bool { return constructHas(o, "closes the notify channel") })
+	c11NoBlockingUnderLock(p, r)
 	// a read blocked for more data is woken by every arrival (shared with C20 R20.1)
 	arrivalWakesReaders(p, r, "R11.10")
 	// the writer parked after EAGAIN is released by every EPOLLOUT edge (shared with C18 R18.7)
@@ -761,4 +763,97 @@ func c11ReusedTimersDrained(p *P, r *R) {
 		}
 	}
 	r.count("R11.8", "Stop() calls on reused timers", n, 1)
+}
+
+// c11NoBlockingUnderLock (R11.11): nothing that can block for an unbounded time — a blocking select, a bare channel
+// operation, WaitGroup.Wait, a sleep, or a call into user code (the ListenCallback / StreamCallbacks interfaces) — runs
+// while one of the package's mutexes may be held: the teardown roles take the same mutexes before they release the
+// waiters (Session.Close takes streamLock before closing shutdownCh), so such a wait can never be ended.
+func c11NoBlockingUnderLock(p *P, r *R) {
+	userMethods := map[string]bool{}
+	for _, in := range []string{"ListenCallback", "StreamCallbacks"} {
+		if tn, ok := p.TPkg.Scope().Lookup(in).(*types.TypeName); ok {
+			if it, ok := tn.Type().Underlying().(*types.Interface); ok {
+				for i := 0; i < it.NumMethods(); i++ {
+					userMethods[it.Method(i).Name()] = true
+				}
+			}
+		}
+	}
+	r.count("R11.11", "methods of the user callback interfaces", len(userMethods), 4)
+	// frozen exception table: lock | function | what -> reason
+	exceptions := map[string]string{
+		"Listener.mu|(*Listener).Close|user callback OnShutdown": "existing behaviour: the listener reports its shutdown under its own mutex; no teardown role needs Listener.mu to release a waiter",
+	}
+	words := map[string]bool{}
+	for _, f := range p.fnList {
+		allInstrs(f, func(in ssa.Instruction) {
+			cc := callCommon(in)
+			if cc == nil || len(cc.Args) == 0 {
+				return
+			}
+			switch p.calleeName(cc) {
+			case "(*sync.Mutex).Lock", "(*sync.RWMutex).Lock", "(*sync.RWMutex).RLock":
+				if w := wordOf(cc.Args[0]); w != "" {
+					words[w] = true
+				}
+			}
+		})
+	}
+	r.count("R11.11", "mutexes of the package", len(words), 6)
+	var ws []string
+	for w := range words {
+		ws = append(ws, w)
+	}
+	sort.Strings(ws)
+	used := map[string]bool{}
+	for _, w := range ws {
+		rg := p.mutexRegion(w)
+		for _, f := range p.fnList {
+			if len(findInstrs(f, M{ID: "acq", F: rg.Acquire})) == 0 {
+				continue
+			}
+			mh := p.mayHeldBefore(f, rg)
+			allInstrs(f, func(in ssa.Instruction) {
+				if !mh[in] {
+					return
+				}
+				what := ""
+				switch x := in.(type) {
+				case *ssa.Select:
+					if x.Blocking {
+						what = "blocking select"
+					}
+				case *ssa.Send:
+					what = "bare channel send"
+				case *ssa.UnOp:
+					if x.Op == token.ARROW {
+						what = "bare channel receive"
+					}
+				case *ssa.Call:
+					n := p.calleeName(&x.Call)
+					if n == "(*sync.WaitGroup).Wait" || n == "time.Sleep" {
+						what = n
+					}
+					if x.Call.IsInvoke() && userMethods[x.Call.Method.Name()] {
+						if nn := namedName(x.Call.Value.Type()); nn == "ListenCallback" || nn == "StreamCallbacks" {
+							what = "user callback " + x.Call.Method.Name()
+						}
+					}
+				}
+				if what == "" {
+					return
+				}
+				key := w + "|" + p.fname(f) + "|" + what
+				reason, ok := exceptions[key]
+				used[key] = true
+				r.ob("R11.11", p.fname(f)+": "+what+" while "+w+" may be held", p.ipos(in), ok, true, "%s", reason)
+			})
+		}
+	}
+	for k := range exceptions {
+		if !used[k] {
+			r.note("R11.11 exception entry %q no longer matches anything (stale, harmless)", k)
+		}
+	}
 }
